@@ -531,7 +531,7 @@ func genHistory(g *hx.Gen) {
 }
 
 func gen(g *hx.Gen) {
-	for h := 0; h < g.N(150, 3000); h++ {
+	for h := 0; h < g.N(100, 1500); h++ {
 		genHistory(g)
 	}
 	g.Emit("reset")
@@ -541,7 +541,9 @@ func gen(g *hx.Gen) {
 	}
 }
 
-func nontrivial(t []string, out string) bool { return t[0] == "tx" && strings.HasPrefix(out, "crashed") }
+func nontrivial(t []string, out string) bool {
+	return t[0] == "tx" && strings.HasPrefix(out, "crashed")
+}
 
 func bucket(t []string, out string) string {
 	switch t[0] {
